@@ -146,6 +146,26 @@ def check_fn(chk, cipher, fn, ns, inputs, tabs_idx, tabs, key, exp_key, targets,
         chk.count((gi, cipher, ns, fn, 'guesses', name), nontrivial=True)
         if out.shape != ref.shape or not np.array_equal(out, ref):
             chk.violation(f'{cipher}.{ns}.{fn}:a subset / permutation of guesses returns exactly the corresponding columns', dict(ctx, property='C07', guesses=gsel), f'{cipher}.{ns}.{fn}: guesses={gsel}')
+    # as many guesses as traces (the two leading axes have the same length: only the values tell (traces, guesses) from (guesses, traces))
+    n = len(inputs)
+    for gsel in (list(range(n)), [(5 * j + 3) % nguess for j in range(n)]):
+        out = np.asarray(cls(guesses=np.array(gsel, dtype='uint8'))(**{tag: arr}))
+        ref = full[:, gsel, :]
+        chk.count((gi, cipher, ns, fn, 'guesses', 'as many as traces', gsel[0]), nontrivial=n > 1)
+        if out.shape != ref.shape or not np.array_equal(out, ref):
+            chk.violation(f'{cipher}.{ns}.{fn}:a subset / permutation of guesses returns exactly the corresponding columns', dict(ctx, property='C07', guesses=gsel, note='as many guesses as traces'), f'{cipher}.{ns}.{fn}: {n} traces, guesses={gsel}')
+    # a batch larger than any internal block: rows cycle through this batch, so do the rows of the output (row r depends on input r only)
+    if gi % 3 == 0 and nguess * nwords <= 4096:
+        big_n = 4096 + 150
+        sel = [(7 * j + 1) % n for j in range(big_n)]
+        gs = list(range(0, nguess, max(1, nguess // 8)))[:8]
+        out = np.asarray(cls(guesses=np.array(gs, dtype='uint8'))(**{tag: arr[sel]}))
+        ref = full[sel][:, gs, :]
+        chk.count((gi, cipher, ns, fn, 'large batch'), nontrivial=True)
+        if out.shape != ref.shape or not np.array_equal(out, ref):
+            badrow = int(np.nonzero(np.any(out != ref, axis=(1, 2)))[0][-1]) if out.shape == ref.shape else -1
+            chk.violation(f'{cipher}.{ns}.{fn}:every guess column is the documented computation with that guess; shape (traces, guesses, words)', dict(ctx, property='C07', rows=big_n, guesses=gs, first_bad_guess=None, last_bad_row=badrow),
+                          f'{cipher}.{ns}.{fn}: batch of {big_n} traces, row {badrow} differs from the specification table')
     if arr.tolist() != [list(x) for x in inputs]:
         chk.violation(f'{cipher}.{ns}.{fn}:the metadata array is left as it was given', dict(ctx, property='C07'), f'{cipher}.{ns}.{fn}: the input array was modified')
     chk.traces_validated += 1
